@@ -853,7 +853,7 @@ def swr_engine(pid, spec, tier, seed, workdir, res):
                 bad.append(('foreground-failed', 'the foreground response: err=%s status=%s body_ok=%s' % (obs['fg_err'], obs['fg_status'], obs['fg_body_ok'])))
             if obs['bg_calls'] != '1':
                 bad.append(('revalidation-count', '%s background revalidation requests were sent' % obs['bg_calls']))
-            want_cond = int(t[4])
+            want_cond = int(t[4]) & 3
             if obs['bg_calls'] == '1' and int(obs['cond']) != want_cond:
                 bad.append(('not-conditional', 'validators stored: %d (1=ETag, 2=Last-Modified), conditional fields sent: %s' % (want_cond, obs['cond'])))
             if obs['bg_calls'] == '1' and (obs['deadline'] != p['deadline'] or int(obs['bg_end']) > int(p['deadline'])):
